@@ -19,6 +19,8 @@ type Endpoint struct {
 	Refuse func() bool
 	// Serve runs as a controlled thread with the server end of the connection.
 	Serve func(conn orig.Conn)
+	// ClientMaxRead, if set, caps what one Read of the dialing side returns (segmentation)
+	ClientMaxRead func() int
 }
 
 var endpoints = map[string]*Endpoint{}
@@ -34,6 +36,9 @@ func DialTimeout(network, addr string, timeout time.Duration) (orig.Conn, error)
 		}
 		dialSeq++
 		s, c := vrt.Pipe("40000", addr)
+		if e.ClientMaxRead != nil {
+			c.MaxRead = e.ClientMaxRead()
+		}
 		serve := e.Serve
 		vrt.GoNamed("srv-"+addr, func() { serve(s) })
 		return c, nil
